@@ -6,8 +6,9 @@ where they were cut — and are lost at the end of the document (the open findin
 (`float-fragment-duplicated`, `absolute-placeholder-survives-abort`) were repaired in /repo (cdccac3,
 e3ac9f0): the model follows, their witnesses are regression theorems now, and §4 below states, for all
 inputs, the two facts the repairs established (`cancelled_block_leaves_nothing`, `only_children_continued`).
-A new finding of the same family, reached by widening the grammar to nested floats, is kept as witness:
-`Witness.nested_float_in_postponed_float_duplicated`.
+A finding of the same family, reached in round 3 by widening the grammar to nested floats
+(`nested-out-of-flow-in-postponed-float`), was repaired in round 4 (0d665d0): regression theorem
+`Witness.nested_float_in_postponed_float_not_duplicated`, and for all inputs `postponed_float_leaves_nothing`.
 
 1. Embedding: on stage-1 documents the extended model *is* stage 1 (so C01–C05 stage-1 theorems hold for
    the static fragment of the extended grammar).
@@ -19,6 +20,7 @@ A new finding of the same family, reached by widening the grammar to nested floa
 import WpModel.Lemmas.OofEmbed
 import WpModel.Lemmas.OofPages
 import WpModel.Lemmas.OofTotal
+import WpModel.Lemmas.OofFrame
 import WpModel.Props.C01
 import WpModel.Witness.C01Oof
 
@@ -177,16 +179,19 @@ theorem abs_segment (c : Ctx) (acc : World × List (Nat × OFrag)) (e : AbsEntry
         (absStep c acc e).1.broken.map (fun b => (b.box.id, b.resume)) =
           r.w.broken.map (fun b => (b.box.id, b.resume)) ++
             (match r.resume with | some ρ => [(e.box.id, ρ)] | none => [])) := by
-  have hsome := box_some e.box c e.idx e.y 0 none false [] { acc.1 with shapes := [] }
-  cases hfr : (layoutBox c e.box e.idx e.y 0 none false true [] { acc.1 with shapes := [] }).frag with
+  have hsome := layoutAbs_isSome c (boxDepth e.box) e.box e.idx e.y none acc.1
+  cases hfr : (layoutAbs c (boxDepth e.box) e.box e.idx e.y none acc.1).frag with
   | none => rw [hfr] at hsome; simp at hsome
   | some f =>
-    refine ⟨f, ?_, _, hfr, segment e.box hg c e.idx e.y 0 none false true [] _ (wfSkip_none _) f hfr, ?_⟩
+    obtain ⟨f0, hf0, hl⟩ := layoutAbs_lines c _ e.box e.idx e.y none acc.1 f hfr
+    have hseg := segment e.box hg c e.idx e.y 0 none false true [] _ (wfSkip_none _) f0 hf0
+    refine ⟨f, ?_, _, hfr, ?_, ?_⟩
     · unfold absStep
       simp only [hfr]
+    · rw [hl, layoutAbs_resume]; exact hseg
     · unfold absStep
       simp only [hfr, List.map_append]
-      cases (layoutBox c e.box e.idx e.y 0 none false true [] { acc.1 with shapes := [] }).resume <;> simp
+      cases (layoutAbs c (boxDepth e.box) e.box e.idx e.y none acc.1).resume <;> simp
 
 /-- **Continuation on the next page** (`make_page`, the loop over `context.broken_out_of_flow`): the box
 cut on the previous page is laid out from exactly the registered resume position; its fragment is
@@ -230,18 +235,17 @@ theorem continuation_segment (c : Ctx) (rootTop : Rat) (acc : World × List OFra
         cases (layoutBox c e.box 0 (floatY acc.1.shapes e.box.st.clear rootTop) 0 (some e.resume) false true []
           { acc.1 with shapes := [] }).resume <;> simp
   · -- an absolutely positioned box
-    have hsome := box_some e.box c e.idx rootTop 0 (some e.resume) false [] { acc.1 with shapes := [] }
-    cases hfr : (layoutBox c e.box e.idx rootTop 0 (some e.resume) false true []
-        { acc.1 with shapes := [] }).frag with
+    have hsome := layoutAbs_isSome c (boxDepth e.box) e.box e.idx rootTop (some e.resume) acc.1
+    cases hfr : (layoutAbs c (boxDepth e.box) e.box e.idx rootTop (some e.resume) acc.1).frag with
     | none => rw [hfr] at hsome; simp at hsome
     | some f =>
-      have hseg := segment e.box hg c e.idx rootTop 0 (some e.resume) false true []
-        { acc.1 with shapes := [] } hwf f hfr
+      obtain ⟨f0, hf0, hl⟩ := layoutAbs_lines c _ e.box e.idx rootTop (some e.resume) acc.1 f hfr
+      have hseg := segment e.box hg c e.idx rootTop 0 (some e.resume) false true [] _ hwf f0 hf0
       simp only
-      refine ⟨f, rfl, _, hseg, ?_⟩
-      simp only [List.map_append]
-      cases (layoutBox c e.box e.idx rootTop 0 (some e.resume) false true []
-        { acc.1 with shapes := [] }).resume <;> simp
+      refine ⟨f, rfl, layoutAbs c (boxDepth e.box) e.box e.idx rootTop (some e.resume) acc.1, ?_, ?_⟩
+      · rw [hl, layoutAbs_resume]; exact hseg
+      · simp only [List.map_append]
+        cases (layoutAbs c (boxDepth e.box) e.box e.idx rootTop (some e.resume) acc.1).resume <;> simp
 
 /-- **Consecutive pages**: the `broken_out_of_flow` a page ends with is what the next page starts from (in
 order) — so by `continuation_segment` every cut out-of-flow box goes on, on the very next page, from where
@@ -317,6 +321,29 @@ theorem finishContainer_broken (c : Ctx) (st : OStyle) (b : BoxSt) (pie : Bool) 
     exact ⟨he.1, by simpa using he.2⟩
   · exact ⟨fun _ => rfl, by simp⟩
 
+/-- **A postponed float leaves nothing behind** (repair 0d665d0): when a float does not fit and is not added
+(`_out_of_flow_layout`, `add_child` false), the children loop stops, and no placeholder / cut float nested in
+the discarded layout of the float stays in `absolute_boxes` / `context.broken_out_of_flow` — whether the page
+break stays before the float or `find_earlier_page_break` moves it up. (False before the repair:
+`Witness.nested_float_in_postponed_float_not_duplicated` is the former counterexample.) -/
+theorem postponed_float_leaves_nothing (c : Ctx) (index : Nat) (pie : Bool) (bs : Rat) (child : OBox)
+    (hc : child.inFlow = false) (s : KidsLoop) (r : LayoutResult) (f : OFrag) (ser : Nat) (w : World)
+    (hfd : floatDone s.w.shapes r = (some (f, ser), w))
+    (hnot : (pie && s.newChildren.isEmpty || !c.overflowsPage bs (f.geo.y + f.geo.h)) = false) :
+    ∃ res s', (floatStep c index pie bs child hc s r).1 = some (.stopped res s') ∧
+      (∀ e ∈ s'.w.absL, e.ser ∉ fragSers f ∧ e ∈ w.absL) ∧
+      (∀ e ∈ s'.w.broken, e.ser ∉ fragSers f ∧ e ∈ w.broken) := by
+  unfold floatStep
+  rw [hfd]
+  simp only [hnot, Bool.false_eq_true, ↓reduceIte]
+  split
+  · refine ⟨_, _, rfl, ?_, ?_⟩ <;> intro e he <;>
+      simp only [World.removeDropped, World.remove, List.mem_filter] at he <;>
+      exact ⟨by simpa using he.1.2, he.1.1⟩
+  · refine ⟨_, _, rfl, ?_, ?_⟩ <;> intro e he <;>
+      simp only [World.remove, List.mem_filter] at he <;>
+      exact ⟨by simpa using he.2, he.1⟩
+
 /-! Non-vacuity: a cut float (serial 7) that is no longer a child is not kept; one that is, is. -/
 example :
     let e : Broken := { ser := 7, box := .para 2 6 10 (Witness.floated Witness.st0), idx := 0,
@@ -349,6 +376,21 @@ example : (paginate exDoc 40).map (fun ps => ps.map fun p =>
       ([(5, 0), (5, 1), (5, 2), (5, 3)], [(4, 1), (4, 2), (4, 3), (5, 0), (5, 1), (5, 2), (5, 3)], [])] ∧
     linesFrom exDoc.root none = [(1, 0), (1, 1), (3, 0), (3, 1), (5, 0), (5, 1), (5, 2), (5, 3)] :=
   ⟨by decide +kernel, by decide +kernel⟩
+
+/-! Nested absolutely positioned boxes (round 4, `layoutAbs`): a 2-line paragraph, an absolutely positioned
+block holding [2 lines, an absolutely positioned block of 5 lines, 1 line], then 4 lines, on 50px pages. The
+inner box starts at `y = 40`, is cut after its first line and registered (before its containing box would be);
+page 2 continues it. Every line of the document is shown exactly once. -/
+open Witness in
+def exAbsInAbs : Doc :=
+  mkDoc 50 [.para 1 2 10 (flow st0),
+    .block 5 (absolute st0) [.para 2 2 10 (flow st0), .block 6 (absolute st0) [.para 3 5 10 (flow st0)],
+      .para 4 1 10 (flow st0)],
+    .para 7 4 10 (flow st0)]
+
+example : Witness.summary exAbsInAbs 30 = some
+    [([(1, 0), (1, 1), (2, 0), (2, 1), (3, 0), (4, 0), (7, 0), (7, 1), (7, 2)], [(6, 0)]),
+     ([(3, 1), (3, 2), (3, 3), (3, 4), (7, 3)], [])] := by decide +kernel
 
 /-- `segment` on a resumed layout (the root of `exDoc` resumed at its third child, in an empty world). -/
 example :
